@@ -1,18 +1,8 @@
 import ZapVerif.Drv.EncOp
 import ZapVerif.Model.Deliver
+import ZapVerif.Drv.DeliverOp
 namespace ZapVerif.Drv.C10
-open Lean ZapVerif ZapVerif.Drv ZapVerif.Deliver ZapVerif.Entry
-
-partial def parseCore (j : Json) : R Core := do
-  let t ← str j "t"
-  match t with
-  | "io" =>
-    let sinks ← (arrD j "sinks").toList.mapM (fun s => do
-      pure (⟨natD s "id" 0, boolD s "werr" false, boolD s "serr" false⟩ : Sink))
-    return .io (boolD j "enabled" false) sinks
-  | "tee" => return .tee (← (arrD j "cs").toList.mapM parseCore)
-  | "wrap" => return .wrap (← parseCore (← fld j "c"))
-  | _ => throw s!"bad core {t}"
+open Lean ZapVerif ZapVerif.Drv ZapVerif.Deliver ZapVerif.Entry ZapVerif.Drv.DeliverOp
 
 def handle (op : Json) : R Json := do
   let k ← str op "k"
